@@ -42,6 +42,13 @@ func (c *connection) onHup(p Poll) error {
 	onRequest := c.onRequestCallback.Load()
 	needCloseByUser := onConnect == nil && onRequest == nil
 	if !needCloseByUser {
+		// input that is still unread must be offered to OnRequest before the close callbacks run
+		// (`send & close by peer`): if no task holds the processing lock right now, start one;
+		// it runs the callbacks itself once the handler has returned.
+		if or, _ := onRequest.(OnRequest); or != nil && !c.inputBuffer.IsEmpty() &&
+			!(c.getState() == connStateNone && onConnect != nil) && c.onProcess(nil, or) {
+			return nil
+		}
 		// already PollDetach when call OnHup
 		c.closeCallback(true, false)
 	}
